@@ -97,6 +97,7 @@ fn dfs_array<const N: usize>() {
     let reach = g.reach(&src);
     let mut p = Path::<N>::new();
     let mut it = Dfs::new(&g, mask(src));
+    let mut early_none = false;
 
     for _ in 0..N {
         match it.next() {
@@ -107,15 +108,38 @@ fn dfs_array<const N: usize>() {
 
                 let _ = p.step(&g, &src, u);
             }
-            None => break,
+            None => {
+                // Known defect (see known_findings.json): `None` although an
+                // unvisited vertex is still on the stack. Runs in which it
+                // manifests are cut here; everything above still holds for
+                // their prefix, and the last assertion reports them.
+                for a in 0..N {
+                    for b in 0..N {
+                        let i = a * N + b;
+
+                        if i < it.stack.len() && !it.visited[it.stack[i]] {
+                            early_none = true;
+                        }
+                    }
+                }
+
+                break;
+            }
         }
     }
 
-    for u in 0..N {
-        assert!(p.yielded[u] == reach[u], "yielded set = reachable set");
+    if !early_none {
+        for u in 0..N {
+            assert!(p.yielded[u] == reach[u], "yielded set = reachable set");
+        }
     }
 
-    kani::cover!(p.yielded[N - 1] && !src[N - 1], "a non-source is reached");
+    kani::cover!(p.yielded[N - 1] && !src[N - 1] && !early_none, "a non-source is reached");
+    kani::cover!(p.depth == N && !early_none, "a search path through all vertices");
+    assert!(
+        !early_none,
+        "next() returns None only when no unvisited vertex is left on the stack"
+    );
     core::mem::forget(it);
 }
 
@@ -127,6 +151,7 @@ fn dfs_dist_array<const N: usize>() {
     let reach = g.reach(&src);
     let mut p = Path::<N>::new();
     let mut it = DfsDist::new(&g, mask(src));
+    let mut early_none = false;
 
     for _ in 0..N {
         match it.next() {
@@ -139,14 +164,38 @@ fn dfs_dist_array<const N: usize>() {
 
                 assert!(d == depth, "DfsDist reports the depth in the search tree");
             }
-            None => break,
+            None => {
+                // Known defect (see known_findings.json): `None` although an
+                // unvisited vertex is still on the stack. Runs in which it
+                // manifests are cut here; everything above still holds for
+                // their prefix, and the last assertion reports them.
+                for a in 0..N {
+                    for b in 0..N {
+                        let i = a * N + b;
+
+                        if i < it.stack.len() && !it.visited[it.stack[i].0] {
+                            early_none = true;
+                        }
+                    }
+                }
+
+                break;
+            }
         }
     }
 
-    for u in 0..N {
-        assert!(p.yielded[u] == reach[u], "yielded set = reachable set");
+    if !early_none {
+        for u in 0..N {
+            assert!(p.yielded[u] == reach[u], "yielded set = reachable set");
+        }
     }
 
+    kani::cover!(p.yielded[N - 1] && !src[N - 1] && !early_none, "a non-source is reached");
+    kani::cover!(p.depth == N && !early_none, "a search path through all vertices");
+    assert!(
+        !early_none,
+        "next() returns None only when no unvisited vertex is left on the stack"
+    );
     core::mem::forget(it);
 }
 
@@ -158,6 +207,7 @@ fn dfs_pred_array<const N: usize>() {
     let reach = g.reach(&src);
     let mut p = Path::<N>::new();
     let mut it = DfsPred::new(&g, mask(src));
+    let mut early_none = false;
 
     for _ in 0..N {
         match it.next() {
@@ -170,41 +220,83 @@ fn dfs_pred_array<const N: usize>() {
 
                 assert!(pr == pred, "DfsPred reports the search-tree parent");
             }
-            None => break,
+            None => {
+                // Known defect (see known_findings.json): `None` although an
+                // unvisited vertex is still on the stack. Runs in which it
+                // manifests are cut here; everything above still holds for
+                // their prefix, and the last assertion reports them.
+                for a in 0..N {
+                    for b in 0..N {
+                        let i = a * N + b;
+
+                        if i < it.stack.len() && !it.visited[it.stack[i].1] {
+                            early_none = true;
+                        }
+                    }
+                }
+
+                break;
+            }
         }
     }
 
-    for u in 0..N {
-        assert!(p.yielded[u] == reach[u], "yielded set = reachable set");
+    if !early_none {
+        for u in 0..N {
+            assert!(p.yielded[u] == reach[u], "yielded set = reachable set");
+        }
     }
 
+    kani::cover!(p.yielded[N - 1] && !src[N - 1] && !early_none, "a non-source is reached");
+    kani::cover!(p.depth == N && !early_none, "a search path through all vertices");
+    assert!(
+        !early_none,
+        "next() returns None only when no unvisited vertex is left on the stack"
+    );
     core::mem::forget(it);
 }
 
+// Dfs over every digraph on 3 vertices x every source set (9 symbolic bits).
 // @verif prop=C06 tier=quick fl=f2 role=dfs/array t=900 mem=12
 #[cfg_attr(kani, kani::proof)]
-#[cfg_attr(kani, kani::unwind(18))]
+#[cfg_attr(kani, kani::unwind(5))]
+pub fn c06_dfs_array_n3() {
+    dfs_array::<3>();
+}
+
+// DfsDist over every digraph on 3 vertices x every source set.
+// @verif prop=C06 tier=quick fl=f2 role=dfs-dist/array t=900 mem=12
+#[cfg_attr(kani, kani::proof)]
+#[cfg_attr(kani, kani::unwind(5))]
+pub fn c06_dfs_dist_array_n3() {
+    dfs_dist_array::<3>();
+}
+
+// DfsPred over every digraph on 3 vertices x every source set.
+// @verif prop=C06 tier=quick fl=f2 role=dfs-pred/array t=900 mem=12
+#[cfg_attr(kani, kani::proof)]
+#[cfg_attr(kani, kani::unwind(5))]
+pub fn c06_dfs_pred_array_n3() {
+    dfs_pred_array::<3>();
+}
+
+// Dfs over every digraph on 4 vertices x every source set (16 symbolic bits).
+// @verif prop=C06 tier=thorough fl=f2 role=dfs/array t=3600 mem=24
+#[cfg_attr(kani, kani::proof)]
+#[cfg_attr(kani, kani::unwind(6))]
 pub fn c06_dfs_array_n4() {
     dfs_array::<4>();
 }
 
-// @verif prop=C06 tier=quick fl=f2 role=dfs-dist/array t=900 mem=12
+// @verif prop=C06 tier=thorough fl=f2 role=dfs-dist/array t=3600 mem=24
 #[cfg_attr(kani, kani::proof)]
-#[cfg_attr(kani, kani::unwind(18))]
+#[cfg_attr(kani, kani::unwind(6))]
 pub fn c06_dfs_dist_array_n4() {
     dfs_dist_array::<4>();
 }
 
-// @verif prop=C06 tier=quick fl=f2 role=dfs-pred/array t=900 mem=12
+// @verif prop=C06 tier=thorough fl=f2 role=dfs-pred/array t=3600 mem=24
 #[cfg_attr(kani, kani::proof)]
-#[cfg_attr(kani, kani::unwind(18))]
+#[cfg_attr(kani, kani::unwind(6))]
 pub fn c06_dfs_pred_array_n4() {
     dfs_pred_array::<4>();
-}
-
-// @verif prop=C06 tier=quick fl=f2 role=dfs/array t=600 mem=10
-#[cfg_attr(kani, kani::proof)]
-#[cfg_attr(kani, kani::unwind(11))]
-pub fn c06_dfs_array_n3() {
-    dfs_array::<3>();
 }
